@@ -44,6 +44,15 @@ pub struct LayerDefs {
     pub layers: Layers,
     /// (key, layernum, usable shape purposes with their numbers)
     pub table: Vec<(LayerKey, i16, Vec<(LayerPurpose, i16)>)>,
+    /// every (number, purpose) pair registered on each layer, in registration order: the generator's own record, independent of `Layer`'s maps
+    pub registered: Vec<(LayerKey, Vec<(i16, LayerPurpose)>)>,
+}
+impl LayerDefs {
+    /// The number a purpose is exported under: the one it was registered with last (independent of the library's own `Layer::num`)
+    pub fn num_of(&self, key: LayerKey, purpose: &LayerPurpose) -> Option<i16> {
+        let (_, pairs) = self.registered.iter().find(|(k, _)| *k == key)?;
+        pairs.iter().rev().find(|(_, p)| p == purpose).map(|(n, _)| *n)
+    }
 }
 
 pub fn rand_layers(rng: &mut Rng) -> LayerDefs {
@@ -52,6 +61,7 @@ pub fn rand_layers(rng: &mut Rng) -> LayerDefs {
 pub fn rand_layers_cfg(rng: &mut Rng, hostile: bool) -> LayerDefs {
     let mut layers = Layers::default();
     let mut table = Vec::new();
+    let mut registered = Vec::new();
     let n = if hostile { 2 + rng.usize(4) } else { 1 + rng.usize(4) };
     let mut nums: Vec<i16> = Vec::new();
     while nums.len() < n {
@@ -72,6 +82,10 @@ pub fn rand_layers_cfg(rng: &mut Rng, hostile: bool) -> LayerDefs {
             if !pn.contains(&k) {
                 pn.push(k);
             }
+        }
+        // sometimes the Label purpose is registered under the SAME number as Drawing ("31/0" for shapes and text alike)
+        if rng.chance(1, 4) {
+            pn[2] = pn[0];
         }
         let mut pairs = vec![
             (pn[0], LayerPurpose::Drawing),
@@ -98,12 +112,14 @@ pub fn rand_layers_cfg(rng: &mut Rng, hostile: bool) -> LayerDefs {
             }
         }
         let layer = Layer::new(*num, name).add_pairs(&pairs).expect("layer pairs");
+        let all_pairs = pairs.clone();
         let pairs = base;
         let key = layers.add(layer);
+        registered.push((key, all_pairs));
         let usable: Vec<(LayerPurpose, i16)> = pairs.iter().filter(|(_, p)| *p != LayerPurpose::Label).map(|(n, p)| (p.clone(), *n)).collect();
         table.push((key, *num, usable));
     }
-    LayerDefs { layers, table }
+    LayerDefs { layers, table, registered }
 }
 
 /// A random shape inside the box [0,800]^2 shifted by `slot`; returns the shape and what family it came from
@@ -188,6 +204,45 @@ pub fn rand_shape(rng: &mut Rng, cfg: &RawCfg, slot: P) -> (Shape, &'static str)
     }
 }
 
+/// A named pad that a wire lands on: a rectangle that has the path's FIRST point on the middle of one of its edges and extends away from
+/// the path (so it contains the start point, but neither the centre of the first segment nor any other point of the path's area; its own
+/// centre is outside the path). Only for paths whose first segment is longer than the pad is deep.
+fn landing_pad(rng: &mut Rng, shape: &Shape) -> Option<Shape> {
+    if let Shape::Path(p) = shape {
+        if p.points.len() < 2 {
+            return None;
+        }
+        let (a, b) = (&p.points[0], &p.points[1]);
+        let s = (p.width / 2) as isize + 2 + rng.range(0, 3) as isize;
+        let pad = if a.y == b.y && a.x != b.x {
+            let back = if b.x > a.x { -1 } else { 1 };
+            let (x0, x1) = (a.x + back * 2 * s, a.x);
+            Rect { p0: Point::new(x0.min(x1), a.y - s), p1: Point::new(x0.max(x1), a.y + s) }
+        } else if a.x == b.x && a.y != b.y {
+            let back = if b.y > a.y { -1 } else { 1 };
+            let (y0, y1) = (a.y + back * 2 * s, a.y);
+            Rect { p0: Point::new(a.x - s, y0.min(y1)), p1: Point::new(a.x + s, y0.max(y1)) }
+        } else {
+            return None;
+        };
+        // the rest of the path must stay clear of the pad (a path that doubles back over its own start would make the labels ambiguous)
+        let half = (p.width / 2) as isize + 1;
+        for k in 1..p.points.len() - 1 {
+            let (u, w) = (&p.points[k], &p.points[k + 1]);
+            let (sx0, sx1, sy0, sy1) = (u.x.min(w.x) - half, u.x.max(w.x) + half, u.y.min(w.y) - half, u.y.max(w.y) + half);
+            if sx0 <= pad.p1.x && sx1 >= pad.p0.x && sy0 <= pad.p1.y && sy1 >= pad.p0.y {
+                return None;
+            }
+        }
+        // and the first segment must be longer than the pad is deep, so that its centre lies outside the pad
+        if (b.x - a.x).abs() + (b.y - a.y).abs() < 2 {
+            return None;
+        }
+        return Some(Shape::Rect(pad));
+    }
+    None
+}
+
 /// See the call site: a 1- or 2-unit-thick rectangle right next to `shape` without touching it.
 fn thin_neighbour(rng: &mut Rng, shape: &Shape) -> Option<Shape> {
     let t = rng.range(1, 2) as isize;
@@ -255,6 +310,13 @@ pub fn rand_raw_lib(rng: &mut Rng, cfg: &RawCfg) -> GenRaw {
                 let (key, _num, purps) = rng.pick(&defs.table).clone();
                 let (purpose, _) = rng.pick(&purps).clone();
                 let (mut inner, _) = rand_shape(rng, cfg, (k as i64 * 1000, (i as i64 % 3) * 1000));
+                if cfg.odd_views && rng.chance(1, 12) {
+                    // an exact axis-aligned rectangle given as a four-point polygon in the order (x0,y0) (x1,y0) (x1,y1) (x0,y1)
+                    if let Shape::Rect(r) = &inner {
+                        let (x0, x1, y0, y1) = (r.p0.x.min(r.p1.x), r.p0.x.max(r.p1.x), r.p0.y.min(r.p1.y), r.p0.y.max(r.p1.y));
+                        inner = Shape::Polygon(Polygon { points: vec![Point::new(x0, y0), Point::new(x1, y0), Point::new(x1, y1), Point::new(x0, y1)] });
+                    }
+                }
                 if cfg.odd_views && rng.chance(1, 6) {
                     match &mut inner {
                         Shape::Path(p) => p.width = 0,
@@ -269,7 +331,11 @@ pub fn rand_raw_lib(rng: &mut Rng, cfg: &RawCfg) -> GenRaw {
                 let net = if cfg.nets && rng.chance(1, 2) { Some(format!("{}{}_{}", rng.pick(&["net", "VDD", "Clk", "a"]), i, k)) } else { None };
                 // a thin named neighbour on the same layer/purpose, not touching the shape: one unit clear of a rectangle's or polygon's
                 // bounding box, and the closest integer line beyond a single-segment path's edge (half a unit clear for odd widths)
-                let neighbour = if cfg.nets && rng.chance(1, 3) { thin_neighbour(rng, &inner) } else { None };
+                let neighbour = if cfg.nets && rng.chance(1, 3) {
+                    if rng.bool() { thin_neighbour(rng, &inner) } else { landing_pad(rng, &inner).or_else(|| thin_neighbour(rng, &inner)) }
+                } else {
+                    None
+                };
                 lay.elems.push(Element { net, layer: key, purpose: purpose.clone(), inner });
                 if let Some(nb) = neighbour {
                     lay.elems.push(Element { net: Some(format!("nbr{}_{}", i, k)), layer: key, purpose, inner: nb });
@@ -292,19 +358,27 @@ pub fn rand_raw_lib(rng: &mut Rng, cfg: &RawCfg) -> GenRaw {
                         4 => Some(270.0),
                         _ => {
                             if cfg.right_angles_only {
-                                Some(-90.0)
+                                // other spellings of the right angles: clockwise quarter turns, whole turns and more
+                                Some(*rng.pick(&[-90.0, -180.0, -270.0, 360.0, -360.0, 450.0, 720.0]))
                             } else {
                                 Some(rng.range(-359, 359) as f64)
                             }
                         }
                     };
-                    lay.insts.push(Instance {
-                        inst_name: if cfg.inst_names { format!("i{}_{}", i, k) } else { String::new() },
-                        cell: cells[j].clone(),
-                        loc: pt((rng.range(-100_000, 100_000), rng.range(-100_000, 100_000))),
-                        reflect_vert: rng.bool(),
-                        angle,
-                    });
+                    // locations: anywhere, or exactly the origin, or exactly where the previous instance sits (mirrored pairs about a common
+                    // origin, stacked instances)
+                    let loc = match rng.below(6) {
+                        0 => pt((0, 0)),
+                        1 if !lay.insts.is_empty() => lay.insts[lay.insts.len() - 1].loc.clone(),
+                        _ => pt((rng.range(-100_000, 100_000), rng.range(-100_000, 100_000))),
+                    };
+                    let reflect_vert = rng.bool();
+                    lay.insts.push(Instance { inst_name: if cfg.inst_names { format!("i{}_{}", i, k) } else { String::new() }, cell: cells[j].clone(), loc: loc.clone(), reflect_vert, angle });
+                    if rng.chance(1, 5) {
+                        // the mirrored twin: same cell, same place, same angle, opposite reflection, listed right after
+                        d.push(j);
+                        lay.insts.push(Instance { inst_name: if cfg.inst_names { format!("i{}_{}m", i, k) } else { String::new() }, cell: cells[j].clone(), loc, reflect_vert: !reflect_vert, angle });
+                    }
                 }
             }
             if cfg.annotations {
